@@ -6,6 +6,7 @@ use crate::crypto::sha256;
 use crate::engine::Engine;
 use crate::ops::*;
 use crate::runner::*;
+use crate::ops::Setup;
 use proptest::strategy::{Strategy, ValueTree};
 use proptest::test_runner::TestRunner;
 use staking::msg::QueryMsg;
@@ -92,4 +93,83 @@ pub fn print_traces(seed: u64, n: usize) {
 
 pub fn nontrivial(s: &crate::engine::Stats) -> bool {
     s.get("Stake.ok") >= 1 && s.get("Submit.ok") >= 1 && (s.flags.contains("stake_rate_ne_1") || s.flags.contains("submit_rate_ne_1"))
+}
+
+// ------------------------------------------------------------------ sub-denom spellings
+
+/// Instantiation with generated sub-denoms (valid and non-canonical spellings): when accepted, the
+/// created denom, the stored LST denom and the denom of the first mint must all be
+/// factory/<contract>/<sub-denom exactly as supplied>.
+pub fn check_subdenom(sub: &String, agg: &mut Agg) -> Result<(), String> {
+    use crate::sim::Effect;
+    use crate::world::*;
+    use cosmwasm_std::{Coin, Uint128};
+    use staking::msg::{ConfigResponse, ExecuteMsg};
+    let setup = Setup { prefix: 0, same_prefix: false, oracle: false, treasury: false, fee_rate: 0, min_stake: 1, batch_period: 10, unbonding_period: 10, n_users: 2, n_monitors: 0, channel: 3, start_running: false };
+    let a = Addrs::new(&setup);
+    let mut ch = new_chain(&setup, &a);
+    let mut msg = instantiate_msg(&setup, &a);
+    msg.liquid_stake_token_denom = sub.clone();
+    let out = ch.instantiate(&a.admin0, msg);
+    if let Some(p) = &out.panic {
+        return Err(format!("instantiate with sub-denom {sub:?} panicked: {} at {}", p.message, p.location));
+    }
+    let alphabetic = sub.len() > 3 && sub.chars().all(|c| c.is_ascii_alphabetic());
+    agg.evaluations += 1;
+    if !out.ok {
+        if alphabetic {
+            return Err(format!("instantiate with the alphabetic sub-denom {sub:?} was rejected: {:?}", out.err));
+        }
+        *agg.counters.entry("subdenom.rejected".into()).or_insert(0) += 1;
+        return Ok(());
+    }
+    *agg.counters.entry("subdenom.accepted".into()).or_insert(0) += 1;
+    let want = format!("factory/{}/{}", a.contract, sub);
+    let created: Vec<(String, String, bool)> = out
+        .effects
+        .iter()
+        .filter_map(|e| match e {
+            Effect::CreateDenom { subdenom, denom, canonical, .. } => Some((subdenom.clone(), denom.clone(), *canonical)),
+            _ => None,
+        })
+        .collect();
+    if created.len() != 1 || created[0].0 != *sub || created[0].1 != want || !created[0].2 {
+        return Err(format!("instantiate with sub-denom {sub:?}: create-denom effects {:?}, expected sub-denom {sub:?} / denom {want}", created));
+    }
+    let cfg: ConfigResponse = ch.query(QueryMsg::Config {})?;
+    if cfg.liquid_stake_token_denom != want {
+        return Err(format!("sub-denom {sub:?}: created {want} but the contract records {:?} as its LST denom", cfg.liquid_stake_token_denom));
+    }
+    let r = ch.execute(&a.admin0, &[], ExecuteMsg::ResumeContract { total_native_token: Uint128::zero(), total_liquid_stake_token: Uint128::zero(), total_reward_amount: Uint128::zero() });
+    if !r.ok {
+        return Err(format!("sub-denom {sub:?}: resume failed: {:?}", r.err));
+    }
+    ch.faucet(&a.users[0], STAKED_DENOM, 5000);
+    let r = ch.execute(&a.users[0], &[Coin::new(5000u128, STAKED_DENOM)], ExecuteMsg::LiquidStake { mint_to: None, transfer_to_native_chain: None, expected_mint_amount: None });
+    let minted: Vec<String> = r.effects.iter().filter_map(|e| if let Effect::Mint { denom, .. } = e { Some(denom.clone()) } else { None }).collect();
+    if !r.ok || minted != vec![want.clone()] || ch.balance(&a.users[0], &want) != 5000 {
+        return Err(format!("sub-denom {sub:?}: first stake ok={} err={:?} minted {:?}, expected a mint of {want}", r.ok, r.err, minted));
+    }
+    agg.nontrivial.insert(crate::runner::fnv_pub(sub));
+    Ok(())
+}
+
+pub fn run_subdenoms(cases: u64, seed: u64) -> RunOutput {
+    use proptest::prelude::*;
+    drive(
+        || {
+            prop_oneof![
+                6 => "[a-zA-Z]{4,20}",
+                1 => "[a-zA-Z]{1,3}",
+                2 => "[ \\t]{0,2}[a-zA-Z]{4,10}[ \\n]{0,2}",
+                1 => "[a-zA-Z]{2,6}[0-9/_.-][a-zA-Z]{2,6}",
+                1 => "[a-zA-Z]{4,8}\\PC{1,2}",
+                1 => Just(String::new()),
+            ]
+        },
+        cases,
+        seed,
+        191,
+        |c: &String, agg: &mut Agg| check_subdenom(c, agg),
+    )
 }
